@@ -4,7 +4,7 @@ import BiotiteModel.Model.C14
 All real numbers travel as integers `k` meaning `k / 2^S` (`S` given by `new`).
 
 ```
-new S cs box sel coords      box: `-` | Lx,Ly,Lz | 9 ints (full box matrix, rows = box vectors)   sel: `-` | bit string | `_`   coords: x,y,z,x,y,z,... | `_`
+new S cs box sel coords      box: `-` | BOX | E/O/p | E/O/n  (BOX = Lx,Ly,Lz | 9 ints, rows = box vectors; E explicit box argument, O the AtomArray's own box, each `-` or BOX)   sel: `-` | bit string | `_`   coords: x,y,z,x,y,z,... | `_`
 atoms mode shape qs rad      mode: idx|mask  shape: s|m  rad: s:K | m:K,K,...
 cells mode shape qs rad      rad: s:C | m:C,C,...   (cell radii, plain integers)
 adj thr
@@ -73,17 +73,29 @@ def parseSel (s : String) : Option (Option (List Bool)) :=
   else if s == "_" then some (some [])
   else some (some (s.toList.map (· == '1')))
 
-inductive BoxArg where
-  | none | diag (b : V3) | full (B : M3)
+/-- a box as it travels in the protocol: 3 integers = axis-aligned orthorhombic lengths (model `mk`),
+9 integers = full matrix, rows = box vectors (model `mkG`) -/
+inductive Bx where
+  | diag (b : V3) | full (B : M3)
 
-/-- `-`: not periodic; 3 integers: axis-aligned orthorhombic lengths (model `mk`); 9 integers: full box
-matrix, rows = box vectors (model `mkG`). -/
-def parseBox (S : Nat) (s : String) : Option BoxArg :=
-  if s == "-" then some .none else
+def parseBx (S : Nat) (s : String) : Option (Option Bx) :=
+  if s == "-" then some none else
   match parseInts s with
-  | some [a, b, c] => some (.diag ⟨q S a, q S b, q S c⟩)
+  | some [a, b, c] => some (some (.diag ⟨q S a, q S b, q S c⟩))
   | some [a, b, c, d, e, f, g, h, i] =>
-    some (.full ⟨⟨q S a, q S b, q S c⟩, ⟨q S d, q S e, q S f⟩, ⟨q S g, q S h, q S i⟩⟩)
+    some (some (.full ⟨⟨q S a, q S b, q S c⟩, ⟨q S d, q S e, q S f⟩, ⟨q S g, q S h, q S i⟩⟩))
+  | _ => none
+
+/-- `-` | box: plain coordinates, periodic iff a box is given (explicit `box` argument).
+`E/O/p|n`: AtomArray input with explicit `box` argument `E`, own box `O` (each `-` or a box) and the
+`periodic` flag; `chooseBox` decides which one is in effect. -/
+def parseBox (S : Nat) (s : String) : Option (Option (Except Err Bx)) :=
+  match s.splitOn "/" with
+  | [one] => (parseBx S one).map fun b => b.map .ok
+  | [e, o, p] =>
+    match parseBx S e, parseBx S o with
+    | some e, some o => if p == "p" then some (chooseBox true e o) else if p == "n" then some (chooseBox false e o) else none
+    | _, _ => none
   | _ => none
 
 def step (st : St) (line : String) : St × String :=
@@ -94,9 +106,13 @@ def step (st : St) (line : String) : St × String :=
       match parseBox S box, toV3s S ks with
       | some box, some ps =>
         let (res, gb) : Option (Except Err CL) × Option M3 := match box with
-          | .none => (mk ps (q S cs) none sel, none)
-          | .diag b => (mk ps (q S cs) (some b) sel, none)
-          | .full B => (mkG ps (q S cs) B sel, some B)
+          | none => (mk ps (q S cs) none sel, none)
+          | some (.ok (.diag b)) => (mk ps (q S cs) (some b) sel, none)
+          | some (.ok (.full B)) => (mkG ps (q S cs) B sel, some B)
+          | some (.error e) =>     -- `_check_coord` (selection errors) comes before the box lookup
+            (match selError ps sel with
+             | some e' => some (.error e')
+             | none => some (.error e), none)
         match res with
         | none => ({ S := S, cl := none }, "unmodelled")
         | some (.error e) => ({ S := S, cl := none }, "ERR:" ++ e.toString)
